@@ -30,16 +30,7 @@ impl PartialEq for Color {
 }
 impl Ord for Color {
     fn cmp(&self, other: &Self) -> std::cmp::Ordering {
-        match (self, other) {
-            (Color::Hsla(a), Color::Hsla(b)) => a.partial_cmp(b).unwrap(),
-            (Color::Hsla(a), Color::Hwba(b)) => {
-                a.partial_cmp(&Hsla::from(b)).unwrap()
-            }
-            (Color::Hwba(a), Color::Hsla(b)) => {
-                Hsla::from(a).partial_cmp(b).unwrap()
-            }
-            (a, b) => a.to_rgba().cmp(&b.to_rgba()),
-        }
+        self.to_rgba().cmp(&other.to_rgba())
     }
 }
 impl PartialOrd for Color {
